@@ -849,7 +849,8 @@ theorem spec_partial : ∀ e : PExpr, Scoped Gen.cfg e = true →
   · rcases h4 with h4 | h4 <;> simp [h4, numericTypes]
   · simp only [List.all_eq_true]
     intro f hf
-    exact (scoped_calls Gen.cfg e h f hf).choose_spec.2.2.2
+    obtain ⟨_, _, _, _, hv⟩ := scoped_calls Gen.cfg e h f hf
+    exact hv
 
 /-- a row that is the namesake of `f`, declared `double`, and not one of the two C++ functions
 whose result type is not `double` -/
